@@ -70,6 +70,13 @@ def random_atoms(rng, cell, n, kinds=('Uiso', 'Uani', None), special=None, s=Non
             M = np.array([[rng.gauss(0, 1) for _ in range(3)] for _ in range(3)])
             Um = 0.01 * (M.dot(M.T) + 0.5 * np.eye(3))
             adp = [Um[0, 0], Um[1, 1], Um[2, 2], Um[1, 2], Um[0, 2], Um[0, 1]]
+            k = rng.random()
+            if k < 0.12:        # structured tensors: no cross terms (atoms on mirror planes), equal diagonal, one cross term only
+                adp = [adp[0], adp[1], adp[2], 0.0, 0.0, 0.0]
+            elif k < 0.24:
+                adp = [adp[0], adp[0], adp[0], 0.0, 0.0, 0.0]
+            elif k < 0.3:
+                adp = [adp[0] + 0.02, adp[1] + 0.02, adp[2] + 0.02, 0.0, 0.0, rng.choice([-1, 1]) * 0.01]
         else:
             adp = 0.0
         atoms.append(Atom(label='A%d' % i, atomtype=rng.choice(ELEMENTS), pos=pos, adp_type=kind, adp=adp, occ=round(rng.uniform(0.2, 1.0), 3), symmulti=None))
